@@ -160,16 +160,19 @@ inline void run(hz::Reader &rd, bool allow_self_stop) {
             while (!c.t_stop_end && !c.pool->is_stopped()) { vrt::yield(); HZ_CHECK(++spins < 20000, "self-stop job never ran"); }
             while (!c.t_stop_end && spins < 40000) { vrt::yield(); spins++; }
         }
-        // a submission made after stop() had returned must be settled at once - it must not
-        // hang until the pool object is destroyed
+        // once the owner's stop() has returned and every submit call has returned, no worker exists any more: every
+        // submission must already be settled (run or cancelled) - none may hang until the pool OBJECT is destroyed
         if ((p.stop_who == 1 || p.stop_who == 3) && c.t_stop_end) {
             for (size_t i = 0; i < c.j.size(); i++) {
                 JRec &r = c.j[i];
-                bool after_stop = r.t_submit_begin > c.t_stop_end;
-                if (!after_stop) continue;
-                if (c.co_done[i]) HZ_CHECK(c.co_done[i]->ready(), "job %zu (kind %d) was submitted after stop() had returned and is still pending (would hang until the pool is destroyed)", i, r.kind);
-                if (c.int_futs[i]) HZ_CHECK(c.int_futs[i]->ready(), "job %zu (kind %d): future of a submission made after stop() had returned is still pending", i, r.kind);
+                const char *when = r.t_submit_begin > c.t_stop_end ? "after stop() had returned" : "while stop() was running";
+                if (c.co_done[i]) HZ_CHECK(c.co_done[i]->ready(), "job %zu (kind %d) was submitted %s and is still pending now that the pool is stopped (it would hang until the pool object is destroyed)", i, r.kind, when);
+                if (c.int_futs[i]) HZ_CHECK(c.int_futs[i]->ready(), "job %zu (kind %d): the future of a submission made %s is still pending now that the pool is stopped", i, r.kind, when);
             }
+            // run_detached closures: every one was either called or destroyed by now
+            long called = 0, total = 0; for (auto &r : c.j) if (r.kind == K_RUN_DETACHED) { total++; called += r.ran; }
+            HZ_CHECK(hz::slot_get(10) == 0, "%ld run_detached closures are still alive (neither run nor dropped) although the pool is stopped and every submit call has returned", hz::slot_get(10));
+            (void)called; (void)total;
         }
         if (!c.t_stop_begin) c.t_stop_begin = hz::tick();
         c.pool.reset();                       // destructor: stop + join, must not deadlock
